@@ -1,2 +1,75 @@
-"""C04 is decided by the shared residue-ring pipeline (checks/c03.py, harness section `C04`, driver mode `modinit`)."""
-from .c03 import run  # noqa: F401
+"""C04: init/convert implement the canonical map Z -> Z/m for every source type.
+
+Two correspondence pipelines, both compiled from the tree under test and run in the S (sanitizers) and R (repository flags) builds:
+  * the shared residue-ring pipeline of C03/C04 (harness/h_modring.cpp section `C04`, driver mode `modinit`): every ring as a map on residues;
+  * round 2 (harness/h_c04x.cpp, driver mode `modinitx`): the rings that are Z/p behind another representation -- Montgomery<int32_t>,
+    Montgomery<ruint<6|7|8>>, GFqDom<int32_t|int64_t> (exponent k >= 1) -- at the level of the STORED word / table index, against the
+    line-by-line models of Model/ModInitMont.lean and Model/GFqInitInt.lean (theorems: Props/C04Mont.lean, Props/C04GFq.lean;
+    Props/C04Ext.lean: ModularExtended init from narrow integers under the quotient-estimate contract).
+"""
+import json
+import os
+import time
+
+from vlib import common, report, flow
+from .c03 import ASSUME, RULE
+
+X_TAGS = ("mgx32", "mgr6", "mgr7", "mgr8", "gfx32", "gfx64")
+EXTRA_PROPS = ["GivaroModel/Props/C04Mont.lean", "GivaroModel/Props/C04GFq.lean", "GivaroModel/Props/C04Ext.lean"]
+
+ASSUME_X = [
+    "round 2 (Montgomery rings, GFqDom): the models take the source as an integer; std::fmod, float/double -> integer truncation and Integer % word are exact on "
+    "integer-valued sources (IEEE-754 / gmp++ contracts, C01/C02); RecInt ruint primitives (mul, laddmul, sub, %, conversions from uint64_t / Integer) by their "
+    "contracts (C06); the Montgomery theorems are about the ring objects the constructors compute (mk32 p, mkR n p: C07's constants_exact, mgR_p1_exact, "
+    "mgR_constants_exact are reused)",
+    "GFqDom: theorems for any tables satisfying Tables.tablesValid (log2pol/pol2log mutually inverse on [0,q), log2pol[0] = 0 ...); that the constructors build "
+    "valid tables is C05's (tied there on dumped tables); here the tie compares _log2pol[init(x)] (read from the live object) with the index the model looks up, "
+    "which determines the element because the tables are a bijection; for k > 1 init is the documented reduction modulo q = p^k followed by p-adic decoding "
+    "(convert(init(x)) = x mod q, hence congruent to x mod p), not a ring homomorphism",
+    "outside the property: -INT32_MIN in Montgomery<int32_t>'s template init is undefined behaviour that both builds resolve by wrapping (modelled as wrapS32; "
+    "fixes/C04_11.patch removes it); convert of a Montgomery<ruint<K>> element into float/double when the lift exceeds 2^24 / 2^53 (ruint -> double keeps the low "
+    "limb only: RecInt conversion, C06)",
+]
+RULE_X = ("round 2: per ring x modulus (3, 7, 101, 2^15+1, max, max-2, max/2, 2^63-25, 2^64-59, 2^64+13, random odd of random size; prime fields and extension fields "
+          "p^k of every small shape up to the storage type's maxCardinality / 10^6 table entries) x source type (int8..uint64, float, double, Integer): limits of the "
+          "type, 0, +-1, m+-1, 2m+-1, m^2+-1, radix+-1, radix^2, +-2^k+-1 for k up to 999, exact multiples of m of random size, random of random magnitude; "
+          "init(convert(e)) and convert to every type for boundary and random stored words e (every e for q <= 64); reduce on arbitrary words; constants")
+
+
+def run(prop, tier, seed, replay=None):
+    V = report.Verdict(prop, tier, seed, "proof")
+    V.assumptions = ASSUME[prop] + ASSUME_X
+    extra = [f for f in EXTRA_PROPS if os.path.exists(os.path.join(common.LEAN_DIR, f))]
+    mods = ["GivaroModel.Props." + prop] + [f[:-5].replace("/", ".") for f in extra]
+    L = flow.lean_stage(V, mods, "GivaroModel/Props/%s.lean" % prop, extra_theorem_files=extra)
+    t0 = time.time()
+    cfgs = ("S", "R")
+    common.shadow_inc()          # once, before the build threads race to re-point the shadow include tree
+    bins = flow.build_harnesses("h_modring", configs=cfgs)
+    binsx = flow.build_harnesses("h_c04x", configs=cfgs)
+    t_build = time.time() - t0
+    lines = linesx = None
+    if replay:
+        with open(replay) as fh:
+            allr = [l.split(" = ")[0] for l in json.load(fh).get("lines", []) if l]
+        linesx = [l for l in allr if l.split(".", 1)[0] in X_TAGS]
+        lines = [l for l in allr if l.split(".", 1)[0] not in X_TAGS]
+    t0 = time.time()
+    res = dict(results=[], crashes=[])
+    if lines is None or lines:
+        res = flow.correspond(bins, "modinit", lines=lines, harness_args=[prop, tier, str(seed)], timeout=3000)
+    t_corr = time.time() - t0
+    t0 = time.time()
+    if linesx is None or linesx:
+        resx = flow.correspond(binsx, "modinitx", lines=linesx, harness_args=[tier, str(seed)], timeout=3000)
+        res["results"] += resx["results"]
+        res["crashes"] += resx["crashes"]
+    t_corrx = time.time() - t0
+    counts = flow.decide(V, res, known=report.findings_for(prop))
+    rings = sorted({l.split(".", 1)[0] for _, l, _ in res["results"]})
+    ops = sorted({l.split(" ", 1)[0].split(".", 1)[-1] for _, l, _ in res["results"]})
+    flow.fill_coverage(V, L, res, counts, rule=RULE[prop] + "; " + RULE_X,
+                       extra={"rings": rings, "operations": ops, "configs": list(cfgs),
+                              "timing_s": {"lean": round(L["t"], 1), "harness_build": round(t_build, 1), "correspondence": round(t_corr, 1),
+                                           "correspondence_round2": round(t_corrx, 1)}})
+    V.finish()
